@@ -24,6 +24,10 @@ def check(chk):
     r104(chk, m)
     r105(chk, m)
     r106(chk, m)
+    from . import shared
+    shared.cache_rules(chk, m, 'R10.7')
+    from . import c04
+    c04.r44(chk, m, rule_id='R10.8')
     chk.decline('row/cell contents and border placement of concrete generated tables (runtime)')
 
 
